@@ -12,6 +12,7 @@ import Check.C10
 import Check.C12
 import Check.C13
 import Check.P4
+import Check.C11
 /-! upfcheck: `upfcheck <property> <trace>` replays every case of the trace through the Lean model
 and the property oracle. Prints one line per problem and a summary. -/
 open Check
@@ -61,6 +62,7 @@ def checker (prop : String) : Option Checker :=
   | "C13" => some ⟨Sys.St, {}, C13.step⟩
   | "C10" => some ⟨Sys.St, {}, C10.step⟩
   | "C12" => some ⟨Sys.St, {}, C12.step⟩
+  | "C11" => some ⟨C11.St, {}, C11.step⟩
   | "C04" => some (p4Checker ["C04", "C01"])
   | "C15" => some (p4Checker ["C15", "C01"])
   | "C16" => some (p4Checker ["C16", "C01"])
